@@ -18,8 +18,20 @@ def run(rep, tier, build, replay=None):
         dboracles.oracle_scope(rep_, cx, case)
         dboracles.oracle_relations(rep_, cx, case, stats)     # relation targets (and multi-hop closures) stay in scope
 
+    first = [True]
+
     def tweak(rng_, u):
         u['interleave'] = True
+        if first[0]:
+            # corpus (always the first universe): the witnesses of known findings F3 and F14, observed through a Wordnet
+            # restricted to the base lexicon
+            first[0] = False
+            import gendoc
+            u['resources'] = gendoc.corpus_ext()
+            u['configs'] = [{'lexicon': 'fb:1', 'expand': ''}, {'lexicon': 'fb:1 fx:1', 'expand': ''}, {}]
+            u['searches'] = [['extform', None], ['cat', 'n'], ['cats', None]]
+            u['translate_to'] = [{'lexicon': 'fb:1'}]
+            return
         if rng_.random() < 0.15:
             u['resources'], u['configs'] = dbfam.crafted_inferred_chain(rng_)
             return
